@@ -50,6 +50,27 @@ def matchASNs (asns : List Nat) (l : Option Nat) : Bool :=
   | none => false
   | some n => asns.contains n
 
+/-! ## IPv6 zones
+
+A `netip.Addr` may carry an IPv6 zone (`fe80::1%eth0`: what the kernel reports for a link-local
+client).  `netip.Prefix.Contains` answers `false` for every address that has one; the access package
+therefore removes the zone (`ip.WithZone("")`) before it consults its subnets. -/
+
+/-- A `netip.Addr` as the transport hands it over: the bits and whether there is a zone. -/
+structure ZAddr where
+  addr : Addr
+  zoned : Bool
+deriving Repr, DecidableEq
+
+/-- `netip.Addr.WithZone("")`. -/
+def ZAddr.withoutZone (z : ZAddr) : ZAddr := { z with zoned := false }
+
+/-- `netip.Prefix.Contains` including its zone rule. -/
+def Prefix.containsZ (p : Prefix) (z : ZAddr) : Bool := !z.zoned && p.contains z.addr
+
+/-- `matchNets` / `SliceSubnetSet.Contains` over addresses as the library sees them. -/
+def matchNetsZ (nets : List Prefix) (z : ZAddr) : Bool := nets.any (fun n => n.containsZ z)
+
 /-! ## Name normalisation (`agdnet`) -/
 
 /-- `strings.TrimSuffix(s, ".")`: removes one final dot. -/
@@ -227,6 +248,12 @@ structure Global where
 /-- `Global.IsBlockedIP`. -/
 def Global.isBlockedIP (g : Global) (a : Addr) : Bool := matchNets g.nets a
 
+/-- `Global.IsBlockedIP` on the address as the transport delivers it: `blockedNets.Contains(ip.WithZone(""))`. -/
+def Global.isBlockedIPZ (g : Global) (z : ZAddr) : Bool := matchNetsZ g.nets z.withoutZone
+
+/-- `Global.IsBlockedIP` before the repair: `blockedNets.Contains(ip)`. -/
+def Global.isBlockedIPZPreFix (g : Global) (z : ZAddr) : Bool := matchNetsZ g.nets z
+
 /-- `Global.IsBlockedHost`. -/
 def Global.isBlockedHost (g : Global) (host : String) (qt : Nat) : Bool := engBlocked (g.eng host qt)
 
@@ -249,6 +276,20 @@ def ProfAcc.isBlockedByHostsEng (p : ProfAcc) (qname : String) (qt : Nat) : Bool
 /-- `DefaultProfile.IsBlocked`. -/
 def ProfAcc.isBlocked (p : ProfAcc) (qname : String) (qt : Nat) (a : Addr) (l : Option Nat) : Bool :=
   p.isBlockedByNets a l || p.isBlockedByHostsEng qname qt
+
+/-- `DefaultProfile.isBlockedByNets` over an address as the library sees it. -/
+def ProfAcc.isBlockedByNetsZ (p : ProfAcc) (z : ZAddr) (l : Option Nat) : Bool :=
+  if matchASNs p.allowedASN l || matchNetsZ p.allowedNets z then false
+  else matchASNs p.blockedASN l || matchNetsZ p.blockedNets z
+
+/-- `DefaultProfile.IsBlocked` on the address as the transport delivers it:
+`ip := rAddr.Addr().WithZone("")`. -/
+def ProfAcc.isBlockedZ (p : ProfAcc) (qname : String) (qt : Nat) (z : ZAddr) (l : Option Nat) : Bool :=
+  p.isBlockedByNetsZ z.withoutZone l || p.isBlockedByHostsEng qname qt
+
+/-- `DefaultProfile.IsBlocked` before the repair: `ip := rAddr.Addr()`. -/
+def ProfAcc.isBlockedZPreFix (p : ProfAcc) (qname : String) (qt : Nat) (z : ZAddr) (l : Option Nat) : Bool :=
+  p.isBlockedByNetsZ z l || p.isBlockedByHostsEng qname qt
 
 /-! ## The middleware -/
 
@@ -300,6 +341,8 @@ inductive DevRes where
 
 structure Req where
   addr : Addr
+  /-- The remote address carries an IPv6 zone. -/
+  zoned : Bool := false
   port : Nat
   qname : String
   qtype : Nat
@@ -332,6 +375,28 @@ def accessReason (g : Global) (r : Req) : Reason :=
     | some p => if p.isBlocked r.qname r.qtype r.addr r.asn then .profile else .pass
 
 def blocked (g : Global) (r : Req) : Bool := accessReason g r != .pass
+
+/-- The remote address as the transport delivers it. -/
+def Req.zaddr (r : Req) : ZAddr := { addr := r.addr, zoned := r.zoned }
+
+/-- `Middleware.isBlockedByAccess` read literally: the address goes to the access package with its
+zone, and the package's own `WithZone("")` and `netip.Prefix.Contains` decide. -/
+def accessReasonZ (g : Global) (r : Req) : Reason :=
+  if g.isBlockedIPZ r.zaddr then .globalIP
+  else if g.isBlockedHost (normQueryDomain r.qname) r.qtype then .globalHost
+  else
+    match r.dev.profAcc with
+    | Option.none => .pass
+    | some p => if p.isBlockedZ r.qname r.qtype r.zaddr r.asn then .profile else .pass
+
+/-- The same before the repair of the access package. -/
+def accessReasonZPreFix (g : Global) (r : Req) : Reason :=
+  if g.isBlockedIPZPreFix r.zaddr then .globalIP
+  else if g.isBlockedHost (normQueryDomain r.qname) r.qtype then .globalHost
+  else
+    match r.dev.profAcc with
+    | Option.none => .pass
+    | some p => if p.isBlockedZPreFix r.qname r.qtype r.zaddr r.asn then .profile else .pass
 
 /-- What is visible outside the middleware: it writes a FORMERR, it hands the request to the next
 stage (rate limiting and everything behind it), or — `servfail` — the *server* writes a SERVFAIL
@@ -366,13 +431,15 @@ structure RI where
   /-- `ri.ECS != nil`. -/
   ecs : Bool
   dev : DevKind
+  /-- `ri.RemoteIP` keeps the zone of the remote address. -/
+  zoned : Bool := false
 deriving Repr, DecidableEq
 
 /-- `newRequestInfo` followed by `ri.Location, ri.ECS = loc, ecs`: every field comes from the current
 request (nothing survives from the pooled structure). -/
 def reqInfo (r : Req) : RI :=
   { host := normDomain r.qname, qtype := r.qtype, qclass := r.qclass, remote := r.addr, asn := r.asn,
-    ecs := r.ecsOk && !r.ecsBad, dev := r.dev.kind }
+    ecs := r.ecsOk && !r.ecsBad, dev := r.dev.kind, zoned := r.zoned }
 
 structure Out where
   effects : List Effect
@@ -444,7 +511,7 @@ def fillInfo (_pooled : RI) (r : Req) : RI :=
   -- ri.DeviceResult = nil; ri.ECS = nil; ri.Location = nil
   let ri := { ri with dev := .none, ecs := false, asn := Option.none }
   -- ri.RemoteIP = raddr.Addr(); ri.Host = NormalizeDomain(q.Name); ri.QType; ri.QClass
-  let ri := { ri with remote := r.addr, host := normDomain r.qname, qtype := r.qtype, qclass := r.qclass }
+  let ri := { ri with remote := r.addr, zoned := r.zoned, host := normDomain r.qname, qtype := r.qtype, qclass := r.qclass }
   -- ri.DeviceResult = mw.deviceFinder.Find(...)
   let ri := { ri with dev := r.dev.kind }
   -- ri.Location, ri.ECS = loc, ecs
@@ -537,5 +604,94 @@ def serverWire (p : Proto) (m : MsgShape) (g : Global) (r : Req) (nextWrites : B
 /-- The next stage ran for this message. -/
 def serverReachedNext (m : MsgShape) (g : Global) (r : Req) : Bool :=
   acceptMsg m == .accept && (wrap g r).effects.contains .next
+
+/-! ## Where a profile's access settings come from: the backend and the file cache
+
+`backendpb.AccessSettings.toInternal` (+ `cidrRangeToInternal`, `asnToInternal`) builds the
+`access.Profile` of a profile from the message of the backend; `filecachepb.accessToProtobuf`
+(+ `prefixesToProtobuf`) over `DefaultProfile.Config()` writes it to the cache file and
+`filecachepb.Access.toInternal` (+ `cidrRangeToInternal`) reads it back after a restart. -/
+
+/-- The configuration of an `access.DefaultProfile` (`access.ProfileConfig`), with the rules in the
+modelled grammar. -/
+structure ProfConf where
+  allowedNets : List Prefix := []
+  blockedNets : List Prefix := []
+  allowedASN : List Nat := []
+  blockedASN : List Nat := []
+  rules : List Rule := []
+deriving Repr, DecidableEq
+
+/-- `access.NewDefaultProfile`. -/
+def ProfConf.acc (c : ProfConf) : ProfAcc :=
+  { allowedNets := c.allowedNets, blockedNets := c.blockedNets, allowedASN := c.allowedASN,
+    blockedASN := c.blockedASN, eng := ruleEngine c.rules }
+
+/-- A `CidrRange` message: the address as a byte string (its length and its big-endian value) and the
+prefix length (`uint32`). -/
+structure Cidr where
+  nbytes : Nat
+  val : Nat
+  bits : Nat
+deriving Repr, DecidableEq
+
+/-- One element of `cidrRangeToInternal`: `netip.AddrFromSlice` accepts 4 bytes (IPv4) and 16 bytes
+(IPv6 — also for an IPv4-mapped address, which stays IPv6); any other length is skipped (backend:
+reported and skipped; cache: cannot happen).  `netip.PrefixFrom` with a length beyond the family's
+width gives an invalid prefix, which `Contains` nothing: the model drops it. -/
+def cidrToPrefix (c : Cidr) : Option Prefix :=
+  if c.nbytes == 4 then (if c.bits ≤ 32 then some ⟨true, c.val, c.bits⟩ else none)
+  else if c.nbytes == 16 then (if c.bits ≤ 128 then some ⟨false, c.val, c.bits⟩ else none)
+  else none
+
+/-- `AccessSettings` of the backend protocol. -/
+structure AccessSettings where
+  enabled : Bool
+  allowCidr : List Cidr := []
+  blockCidr : List Cidr := []
+  allowASN : List Nat := []
+  blockASN : List Nat := []
+  rules : List Rule := []
+deriving Repr, DecidableEq
+
+/-- `backendpb.AccessSettings.toInternal`: no message or `enabled = false` gives
+`access.EmptyProfile` (`none`). -/
+def accessFromBackend (x : Option AccessSettings) : Option ProfConf :=
+  match x with
+  | none => none
+  | some x =>
+    if !x.enabled then none
+    else some { allowedNets := x.allowCidr.filterMap cidrToPrefix, blockedNets := x.blockCidr.filterMap cidrToPrefix,
+                allowedASN := x.allowASN, blockedASN := x.blockASN, rules := x.rules }
+
+/-- The `Access` message of the cache file. -/
+structure CacheAccess where
+  allowCidr : List Cidr := []
+  blockCidr : List Cidr := []
+  allowASN : List Nat := []
+  blockASN : List Nat := []
+  rules : List Rule := []
+deriving Repr, DecidableEq
+
+/-- One element of `prefixesToProtobuf`: `Address: n.Addr().AsSlice(), Prefix: uint32(n.Bits())`. -/
+def cidrOfPrefix (p : Prefix) : Cidr := ⟨if p.is4 then 4 else 16, p.val, p.bits⟩
+
+/-- `filecachepb.accessToProtobuf (p.Access.Config())`: `EmptyProfile.Config()` is nil and stays nil. -/
+def cacheOfConf (c : Option ProfConf) : Option CacheAccess :=
+  c.map fun c =>
+    { allowCidr := c.allowedNets.map cidrOfPrefix, blockCidr := c.blockedNets.map cidrOfPrefix,
+      allowASN := c.allowedASN, blockASN := c.blockedASN, rules := c.rules }
+
+/-- `filecachepb.Access.toInternal`: nil gives `access.EmptyProfile`. -/
+def confOfCache (x : Option CacheAccess) : Option ProfConf :=
+  x.map fun x =>
+    { allowedNets := x.allowCidr.filterMap cidrToPrefix, blockedNets := x.blockCidr.filterMap cidrToPrefix,
+      allowedASN := x.allowASN, blockedASN := x.blockASN, rules := x.rules }
+
+/-- The access decision of a profile as the device finder hands it over (`none` = `EmptyProfile`). -/
+def confBlocked (c : Option ProfConf) (qname : String) (qt : Nat) (z : ZAddr) (l : Option Nat) : Bool :=
+  match c with
+  | none => false
+  | some c => c.acc.isBlockedZ qname qt z l
 
 end Agd.Access
